@@ -218,9 +218,14 @@ class Compiler:
             try:
                 return get_as_int(state, "link address", state["insn"], address, bitness=16, unsigned=False)
             except DeferredCycle:
+                try:
+                    value_repr = repr(address.resolve(state))
+                except DeferredCycle:
+                    # Happens for e.g. '.link . % 2': resolving the expression again hits the same cycle
+                    value_repr = repr(address)
                 reports.error(
                     "recursive-definition",
-                    (state["insn"].ctx_start, state["insn"].ctx_end, f"The link base is mathematically equal to {address.resolve(state)!r},\nwhere LA denotes link base. In other words, the link base depends on itself,\nand thus cannot be determined.")
+                    (state["insn"].ctx_start, state["insn"].ctx_end, f"The link base is mathematically equal to {value_repr},\nwhere LA denotes link base. In other words, the link base depends on itself,\nand thus cannot be determined.")
                 )
                 return 0
 
